@@ -619,6 +619,9 @@ def run_job(base, xbase, idx, job):
             if os.path.exists(target):
                 os.rename(target, q)
             os.symlink(os.path.join('..', q), target)
+        if inp.get('mode') is not None and os.path.exists(target):
+            # an existing target whose permission bits are not those of a freshly created file (chmod 600 users.conf)
+            os.chmod(target, inp['mode'])
         out['old'] = open(target, 'rb').read().decode('latin1') if os.path.exists(target) else None
         if crash is None:
             out['old_state'] = loaded_state(inp['caller'], target, os.path.join(jobdir, 'scratch'))[0]
@@ -1035,6 +1038,10 @@ CORPUS += [
 
 # the target path is a symbolic link (conf/users.conf -> ../store/users.conf, the registry file, a flatfile)
 CORPUS += [
+    dict(raw_case('old content of a chmod 600 file\n' * 3, ['new ', 'content\n'], chunk=16), mode=0o600),
+    dict(raw_case('old content of a chmod 600 file\n' * 3, ['new ', 'content\n'], tmp='same', backup='dir', chunk=16), mode=0o600),
+    dict(db_case('users', {'n': 2, 'v': 1}, {'n': 1, 'v': 2}, chunk=64), mode=0o640),
+    dict(raw_case('old content\n', ['new ', 'content\n'], link=True), mode=0o600),
     raw_case('old content\n', ['new ', 'content\n'], link=True),
     raw_case(None, ['first save through a dangling link\n'], link=True),
     raw_case('long old content ' * 4, ['short\n'], backup='dir', tmp='same', chunk=16, link=True),
